@@ -427,6 +427,14 @@ func Parse(g *G, n int) []Program {
 		case "Scan":
 			if !isPlainASCII(s) || strings.ContainsAny(s, " ") || s == "" {
 				st["op"] = "SetString"
+			} else if g.R.Intn(5) == 0 {
+				// a rune that is not ASCII but whose low byte is a character of the grammar, inside or right after the literal
+				r := g.PickS("\u0131", "\u0135", "\u015f", "\u012e", "\u012d", "\u0465", "\u0170", "\u0130", "\u00e9")
+				i := g.R.Intn(len(s) + 1)
+				if g.Bool() {
+					i = len(s)
+				}
+				st["s"] = s[:i] + r + s[i:]
 			}
 		}
 		g.Emit(st)
